@@ -290,12 +290,16 @@ MANIFEST_TEXT["C11"] = {
 PLANS["C16"] = {
     "level": "exploration",
     "rule": "all eight subsets of {history, autocomplete, help} (macros on): each is built from /repo's tree, then runs the same seeded sessions (typing, editing, Up/Down, Tab, help-shaped lines, Cli::write, set_prompt) under the C01/C05/C06/C10/C11/C13/C15 monitors with the reference models configured for that feature set "
-            "(history off: Up/Down change nothing and write nothing; autocomplete off: Tab likewise; help off: help-shaped lines are dispatched like any command); then the per-session transcript hashes (sink bytes and flush positions, handler records, editor state) of every build are compared with the all-features build for every session that never touches a facility the build lacks. "
+            "(history off: Up/Down change nothing and write nothing; autocomplete off: Tab likewise; help off: help-shaped lines are dispatched like any command); generated declarations are also compiled in builds without `help` and run under the C09 reference interpreter (there `help`, -h and --help are ordinary input: an undeclared option is an error, a declared one works); then the per-session transcript hashes (sink bytes and flush positions, handler records, editor state) of every build are compared with the all-features build for every session that never touches a facility the build lacks. "
             "distinct = hashes of the per-monitor situations; evaluations = monitor clauses + transcripts compared",
     "assumptions": list(SESSION_ASSUME) + ["with help off, whether Tab still offers the built-in `help` name is not decided by the statement: both accepted"],
     "exhaustive": {"quick": False, "thorough": False},
     "min_counts": {"quick": {"c16.transcripts_compared": 8000, "c01.enter.dispatched": 50000}, "thorough": {"c16.transcripts_compared": 100000, "c01.enter.dispatched": 600000}},
-    "stages": [{"custom": "c16_differential", "variants": ["feat-000", "feat-001", "feat-010", "feat-011", "feat-100", "feat-101", "feat-110", "feat-111"]}],
+    "stages": [{"custom": "c16_differential", "variants": ["feat-000", "feat-001", "feat-010", "feat-011", "feat-100", "feat-101", "feat-110", "feat-111"]},
+               # derived parsers in builds without the help facility: -h / --help / help are ordinary input there
+               {"custom": "declbatch", "mode": "C09", "features": "history,autocomplete", "batches_quick": [1, 30, 0], "batches_thorough": [4, 60, 0]},
+               {"custom": "declbatch", "mode": "C09", "features": "", "batches_quick": [1, 30, 0], "batches_thorough": [4, 60, 0], "tiers": ["thorough"]},
+               {"custom": "declbatch", "mode": "C11", "features": "autocomplete", "batches_quick": [1, 5, 20], "batches_thorough": [2, 10, 40], "tiers": ["thorough"]}],
 }
 MANIFEST_TEXT["C16"] = {
     "technique": "runtime monitoring per feature build (all 8 subsets) with per-build reference models + differential comparison of session transcripts across builds",
